@@ -233,6 +233,7 @@ class Ctx:
         self.vm_cases = 0
         self.thorough = tier == "thorough"
         self._model = None
+        self.use_model = True
 
     @property
     def model(self):
